@@ -489,6 +489,32 @@ func c02NoFailure(c *Ctx, p *Prog, m *Model, tags string) {
 					if !fromPool {
 						problems = append(problems, fmt.Sprintf("type assertion %s.(%s) without comma-ok at %s panics for other dynamic types", m.valDesc(x.X), types.TypeString(x.AssertedType, nil), p.Pos(instrPos(x))))
 					}
+				case *ssa.Call:
+					// reflection on a value of any kind: the accessors that panic on the zero Value (what Elem() of a nil
+					// pointer or nil interface yields) need a validity / nil test on the way
+					if cal := calleeOf(x); cal != nil && cal.Signature.Recv() != nil && cal.Pkg != nil && cal.Pkg.Pkg.Path() == "reflect" && typeName(cal.Signature.Recv().Type()) == "Value" {
+						switch cal.Name() {
+						case "Interface", "Int", "Uint", "Float", "Bool", "Complex", "Field", "Index", "MapIndex", "Len", "Bytes", "Pointer", "Set", "Call":
+							guarded := false
+							for _, g := range guardsOf(b) {
+								cond, neg := normCond(g.If.Cond)
+								if c2, ok := cond.(*ssa.Call); ok {
+									if cal2 := calleeOf(c2); cal2 != nil && cal2.Pkg != nil && cal2.Pkg.Pkg.Path() == "reflect" {
+										taken := (g.Succ == 0) != neg
+										switch cal2.Name() {
+										case "IsValid", "CanInterface":
+											guarded = guarded || taken
+										case "IsNil", "IsZero":
+											guarded = guarded || !taken
+										}
+									}
+								}
+							}
+							if !guarded {
+								problems = append(problems, fmt.Sprintf("reflect.Value.%s at %s without a validity / nil test on the way: it panics for the zero Value (a typed nil pointer, a nil interface)", cal.Name(), p.Pos(instrPos(x))))
+							}
+						}
+					}
 				case *ssa.IndexAddr:
 					prm, ok := x.X.(*ssa.Parameter)
 					if !ok {
